@@ -173,6 +173,14 @@ func VerifyV4Signature(root RootUserConfig, iam auth.IAMService, logger s3log.Au
 			return sendResponse(ctx, err, logger, mm)
 		}
 
+		if utils.IsStreamingPayload(hashPayload) {
+			// an aws-chunked body is only decoded, and its chunk signatures
+			// and trailing checksum verified, where the body is streamed to
+			// the backend (PutObject, UploadPart). Any other handler would
+			// take the chunk framing, unverified, for its payload.
+			return sendResponse(ctx, s3err.GetAPIError(s3err.ErrInvalidRequest), logger, mm)
+		}
+
 		return ctx.Next()
 	}
 }
